@@ -478,14 +478,18 @@ Proof.
     destruct (IH _ _ J1 F') as (r2 & E2 & J2). exists r2. cbn [fold_left]. rewrite E1, E2.
     split; [reflexivity|]. rewrite <- app_assoc in J2. exact J2.
 Qed.
-Lemma graph_ok_edges G : graph_okb G = true -> edges_ok G (gedges G).
+Definition edges_okb (G : graph) : bool :=
+  forallb (fun e => let '(a, b, _) := e in negb (a =? b) && is_some (vval G a) && is_some (vval G b)) (gedges G).
+Lemma graph_okb_edges_okb G : graph_okb G = true -> edges_okb G = true.
+Proof. unfold graph_okb, edges_okb. intro H. apply andb_prop in H as [_ H]. exact H. Qed.
+Lemma graph_ok_edges G : edges_okb G = true -> edges_ok G (gedges G).
 Proof.
-  unfold graph_okb. intro H. apply andb_prop in H as [_ H]. rewrite forallb_forall in H.
+  unfold edges_okb. intro H. rewrite forallb_forall in H.
   apply Forall_forall. intros [[a b] w] Hin. specialize (H _ Hin). cbn in H.
   apply andb_prop in H as [H H3]. apply andb_prop in H as [H1 H2].
   repeat split; [lia | destruct (vval G a); [discriminate | discriminate H2] | destruct (vval G b); [discriminate | discriminate H3]].
 Qed.
-Theorem ins_graph_inv G st : graph_okb G = true -> ins_graph G = Some st -> Jinv G (gedges G) (tree st).
+Theorem ins_graph_inv G st : edges_okb G = true -> ins_graph G = Some st -> Jinv G (gedges G) (tree st).
 Proof.
   intros Hok H. pose proof (graph_ok_edges G Hok) as Fe. unfold ins_graph in H.
   destruct (gverts G) as [|p vs] eqn:Ev.
@@ -504,7 +508,7 @@ Proof.
         intro b. cbn. destruct (a <? b); reflexivity. }
     destruct (Jinv_fold G (gedges G) [] _ J0 Fe) as (r & Er & Jr). rewrite Er in H. inversion H; subst st. exact Jr.
 Qed.
-Lemma ins_graph_total G : graph_okb G = true -> exists st, ins_graph G = Some st.
+Lemma ins_graph_total G : edges_okb G = true -> exists st, ins_graph G = Some st.
 Proof.
   intros Hok. pose proof (graph_ok_edges G Hok) as Fe. unfold ins_graph.
   destruct (gverts G) as [|p vs] eqn:Ev; [eauto|]. rewrite <- Ev.
@@ -655,10 +659,10 @@ Proof.
 Qed.
 
 (* ------------------------------------------------------------------------------------------------ main theorems *)
-Lemma graph_ok_eval G : graph_okb G = true -> forall x y w, eval G x y = Some w -> vval G x <> None /\ vval G y <> None.
+Lemma graph_ok_eval G : edges_okb G = true -> forall x y w, eval G x y = Some w -> vval G x <> None /\ vval G y <> None.
 Proof. intros Hok x y w. apply edges_ok_elookup, graph_ok_edges, Hok. Qed.
 
-Theorem expansion_flag G st d : graph_okb G = true -> ins_graph G = Some st -> 2 <= d ->
+Theorem expansion_flag G st d : edges_okb G = true -> ins_graph G = Some st -> 2 <= d ->
   wf (tree (expansion st d)) /\
   (forall s, lookup (abs (tree (expansion st d))) s = flag G d s) /\
   dimn (expansion st d) = height_t (Node (tree (expansion st d))).
@@ -689,3 +693,105 @@ Proof.
       intros z [->|Hz]; [lia | auto].
     + intros [H1 H2]. assert (fmx g a r <= m) by (apply IH; split; auto). specialize (H2 y (or_introl eq_refl)). lia.
 Qed.
+
+(* ------------------------------------------------------------------------------------------------ max_dim = 1: the graph itself *)
+Definition leafy (root : sibs) : Prop :=
+  forall a wa c, get a root = Some (wa, c) -> forall b wb cb, get b (kids c) = Some (wb, cb) -> cb = leaf.
+Lemma leafy_step root u v w root' : leafy root -> ins_edge (Some root) (u, v, w) = Some root' -> leafy root'.
+Proof.
+  intros L H. unfold ins_edge in H. destruct (u =? v); [discriminate|].
+  destruct (get (Z.min u v) root) as [[wa [c]]|] eqn:Ea; [|discriminate]. inversion H; subst root'. clear H.
+  intros a' wa' c'' Hg b' wb cb Hb. destruct (Z.eq_dec a' (Z.min u v)) as [->|Hx].
+  - rewrite get_put_same in Hg. inversion Hg; subst wa' c''. cbn [kids] in Hb.
+    destruct (get (Z.max u v) c) eqn:Eb.
+    + eapply (L _ _ _ Ea); eauto.
+    + destruct (Z.eq_dec b' (Z.max u v)) as [->|Hb'].
+      * rewrite get_put_same in Hb. inversion Hb; reflexivity.
+      * rewrite get_put_other in Hb by auto. eapply (L _ _ _ Ea); eauto.
+  - rewrite get_put_other in Hg by auto. eapply L; eauto.
+Qed.
+Lemma leafy_fold : forall es root root', leafy root -> fold_left ins_edge es (Some root) = Some root' -> leafy root'.
+Proof.
+  induction es as [|[[u v] w] es IH]; intros root root' L H; [inversion H; subst; exact L|].
+  cbn [fold_left] in H. destruct (ins_edge (Some root) (u, v, w)) as [r1|] eqn:E1.
+  - eapply IH; [eapply leafy_step; eauto | exact H].
+  - exfalso. clear - H. induction es as [|e es IH]; [discriminate | apply IH; exact H].
+Qed.
+Lemma ins_graph_leafy G st : ins_graph G = Some st -> leafy (tree st).
+Proof.
+  unfold ins_graph. destruct (gverts G) as [|p vs] eqn:Ev.
+  - intro H; inversion H; subst. intros a wa c Hg. discriminate.
+  - rewrite <- Ev. destruct (fold_left ins_edge _ _) as [t|] eqn:Ef; [|discriminate]. intro H; inversion H; subst. cbn [tree].
+    eapply leafy_fold; [|exact Ef]. intros a wa c Hg. rewrite ins_vertices_get in Hg. cbn [get] in Hg.
+    destruct (vlookup a (gverts G)); [|discriminate]. inversion Hg; subst. intros b wb cb Hb. discriminate.
+Qed.
+Theorem graph_flag1 G st : edges_okb G = true -> ins_graph G = Some st ->
+  wf (tree st) /\ (forall s, lookup (abs (tree st)) s = flag G 1 s) /\ (forall d, d <= 1 -> expansion st d = st).
+Proof.
+  intros Hok Hi. pose proof (ins_graph_inv G st Hok Hi) as J. pose proof (ins_graph_leafy G st Hi) as L.
+  pose proof (graph_ok_eval G Hok) as HV.
+  assert (forall x y, vlookup y (nbrs (tree st) x) = if x <? y then eval G x y else None) as HB.
+  { apply (Jinv_nbrs G (gedges G) (tree st) J). intros x y w H. apply (HV x y w H). }
+  destruct J as (W & J2 & J3). split; [exact W | split].
+  - intro s. rewrite find_abs by exact W. rewrite <- (rspec_flag G (tree st) 1 J2 HB HV) by lia.
+    destruct s as [|x [|y [|z t]]]; [reflexivity | reflexivity | |].
+    + rewrite find_val_deep. cbn [rspec]. destruct (get x (tree st)) as [[w [c]]|] eqn:Eg; [|reflexivity].
+      rewrite find_val_one. rewrite (nbrs_get _ _ _ _ Eg).
+      pose proof (wf_get x _ w (Node c) W Eg) as Wc. rewrite wf_t_node in Wc.
+      rewrite <- (vlookup_labs y c Wc). unfold fspec. cbn. unfold vwf. destruct (vlookup y (labs c)); reflexivity.
+    + rewrite find_val_deep. cbn [rspec]. destruct (get x (tree st)) as [[w [c]]|] eqn:Eg; [|reflexivity].
+      rewrite find_val_deep. unfold fspec. cbn [length Z.to_nat Z.sub Nat.leb]. rewrite !andb_false_r.
+      destruct (get y c) as [[wy [cy]]|] eqn:Ey; [|reflexivity].
+      pose proof (L x w (Node c) Eg y wy (Node cy) Ey) as Hl. inversion Hl; subst. apply find_val_nil_l.
+  - intros d Hd. unfold expansion. destruct (Z.leb_spec d 1); [reflexivity | lia].
+Qed.
+
+(* ------------------------------------------------------------------------------------------------ values incl. the vertices *)
+Lemma elookup_in x y : forall es w, elookup x y es = Some w ->
+  exists a b, In (a, b, w) es /\ ((a = x /\ b = y) \/ (a = y /\ b = x)).
+Proof.
+  induction es as [|[[a b] o] es IH]; intros w H; [discriminate|]. cbn [elookup] in H.
+  destruct (((a =? x) && (b =? y)) || ((a =? y) && (b =? x))) eqn:E.
+  - inversion H; subst. exists a, b. split; [left; reflexivity | lia].
+  - destruct (IH w H) as (a' & b' & Hin & Hm). exists a', b'. split; [right; exact Hin | exact Hm].
+Qed.
+Definition vv (G : graph) (x : Z) : V := match vval G x with Some w => w | None => 0 end.
+Lemma mono_edge G x y : graph_monob G = true -> adj G x y = true -> is_some (vval G x) = true -> is_some (vval G y) = true ->
+  vv G x <= ew G x y /\ vv G y <= ew G x y.
+Proof.
+  unfold graph_monob, adj, ew, vv, eval. intros Hm Ha Hx Hy. rewrite forallb_forall in Hm.
+  destruct (elookup x y (gedges G)) as [w|] eqn:E; [|discriminate].
+  destruct (elookup_in x y _ w E) as (a & b & Hin & Hab). specialize (Hm _ Hin). cbn beta iota in Hm.
+  destruct Hab as [[-> ->]|[-> ->]]; destruct (vval G x), (vval G y); try discriminate; lia.
+Qed.
+Theorem fval_with_vertices G s : graph_monob G = true -> cliqueb G s = true -> s <> [] -> fval G s = fval_all G s.
+Proof.
+  intros Hm Hc Hn. destruct s as [|x [|y t]]; [congruence | reflexivity |].
+  change (fval G (x :: y :: t)) with (mval (ew G x) (ew G) (y :: t)).
+  change (fval_all G (x :: y :: t)) with (mval (vv G) (ew G) (x :: y :: t)).
+  rewrite mval_cons2. set (r := y :: t) in *.
+  rewrite <- (mval_shift (vv G) (ew G) x (vv G x) r) by discriminate.
+  apply mval_ext. intros u Hu. cbn [cliqueb] in Hc. apply andb_prop in Hc as [Hc Hcr]. apply andb_prop in Hc as [Hx Ha].
+  rewrite forallb_forall in Ha. specialize (Ha u Hu).
+  assert (is_some (vval G u) = true) as Hu'.
+  { clear - Hcr Hu. induction r as [|z r IH]; [destruct Hu|]. cbn [cliqueb] in Hcr. apply andb_prop in Hcr as [H1 H2].
+    apply andb_prop in H1 as [H1 _]. destruct Hu as [->|Hu]; auto. }
+  destruct (mono_edge G x u Hm Ha Hx Hu'). lia.
+Qed.
+
+(* ------------------------------------------------------------------------------------------------ witnesses for max_dim <= 0 *)
+Definition G_edge : graph := mkG [(0, 0); (1, 0)] [(0, 1, 2)].
+Lemma expansion_dim0_keeps_edges_refuted_lemma :
+  exists G st, graph_okb G = true /\ ins_graph G = Some st /\
+               lookup (abs (tree (expansion st 0))) [0; 1] = Some 2 /\ flag G 0 [0; 1] = None /\ dimn (expansion st 0) = 1.
+Proof. exists G_edge. eexists. repeat split; vm_compute; reflexivity. Qed.
+Definition G_k4 : graph := mkG [(0, 0); (1, 0); (2, 0); (3, 0)] [(0, 1, 0); (0, 2, 0); (0, 3, 0); (1, 2, 0); (1, 3, 0); (2, 3, 0)].
+(* the unrepaired expansion_with_blockers (fx = false) with max_dim = 0 builds the tetrahedron *)
+Lemma blockers_dim0_unbounded_refuted_lemma :
+  exists G st, graph_okb G = true /\ ins_graph G = Some st /\
+               let r := fst (exp_blockers (fun _ _ => false) false st 0) in
+               lookup (abs (tree r)) [0; 1; 2; 3] = Some 0 /\ flag G 0 [0; 1; 2; 3] = None /\ dimn r = 3.
+Proof. exists G_k4. eexists. repeat split; vm_compute; reflexivity. Qed.
+(* the repaired one leaves the graph as it is for max_dim <= 1 *)
+Lemma blockers_low_dim P st d : d <= 1 -> exp_blockers P true st d = (st, []).
+Proof. intro H. unfold exp_blockers. destruct (Z.leb_spec d 1); [reflexivity | lia]. Qed.
